@@ -118,6 +118,36 @@ func Hist(name string) *ref.History {
 		f := h.Files[1]
 		size := f.Events[len(f.Events)-1].End - f.Events[0].Pos
 		f.Base = 1<<32 - 1 - size
+	case "H4":
+		// every kind of commit point: BEGIN..XID, autocommitted DDL, a transaction
+		// with an unknown statement (SAVEPOINT) inside, autocommitted rows, SET,
+		// a rolled-back transaction, BEGIN..COMMIT
+		h = &ref.History{Cfg: cfg, Files: []*ref.File{{Name: f1, Events: cat(
+			txInsert(1600000000, t, 21, 1, "alice"),
+			[]*ref.AEvent{ref.Q(1600000005, "db1", "CREATE TABLE t2 (a int)")},
+			[]*ref.AEvent{ref.Q(1600000010, "db1", "BEGIN"), ref.TM(1600000010, t),
+				ref.R(1600000010, ref.RowWrite, t, ref.RowChange{After: row1(t, 2, "carol", 3)}),
+				ref.Q(1600000011, "db1", "SAVEPOINT sp1"),
+				ref.TM(1600000011, t),
+				ref.R(1600000011, ref.RowUpdate, t, ref.RowChange{Before: row1(t, 2, "carol", 3), After: row1(t, 2, "dave", 4)}),
+				ref.X(1600000012, 22)},
+			[]*ref.AEvent{ref.TM(1600000015, t), ref.R(1600000015, ref.RowWrite, t, ref.RowChange{After: row1(t, 9, "auto", 1)})},
+			[]*ref.AEvent{ref.Q(1600000016, "", "SET PASSWORD FOR 'u'@'%'='x'")},
+			[]*ref.AEvent{ref.Q(1600000017, "db1", "BEGIN"), ref.TM(1600000017, t),
+				ref.R(1600000017, ref.RowDelete, t, ref.RowChange{Before: row1(t, 9, "auto", 1)}),
+				ref.Q(1600000018, "db1", "ROLLBACK")},
+			txDelete(1600000020, t, 23, 1, "alice"))}}}
+	case "H9":
+		// commit points immediately followed by units outside BEGIN...COMMIT: a
+		// parser that reuses the buffer of a delivered transaction shows here
+		h = &ref.History{Cfg: cfg, Files: []*ref.File{{Name: f1, Events: cat(
+			txInsert(1600000000, t, 21, 1, "alice"),
+			[]*ref.AEvent{ref.Q(1600000005, "db1", "ALTER TABLE t1 ADD COLUMN x int")},
+			[]*ref.AEvent{ref.Q(1600000006, "db1", "CREATE TABLE t2 (a int)")},
+			txUpdate(1600000010, t, 22, 1, "alice", "bob"),
+			[]*ref.AEvent{ref.TM(1600000012, t), ref.R(1600000012, ref.RowWrite, t, ref.RowChange{After: row1(t, 9, "auto", 1)})},
+			txDelete(1600000020, t, 23, 1, "bob"),
+			[]*ref.AEvent{ref.Q(1600000025, "db1", "DROP TABLE t2")})}}}
 	case "H8":
 		h = hist8(cfg)
 	default:
